@@ -2,10 +2,13 @@
    is derived (not assumed) to be in the project handed to the runner, located
    so that it passes the file filter; with the runner theorems of
    Proofs.RunnerProofs it is displayed and the exit status is 1. *)
-From Coq Require Import ZArith Lia Permutation.
+From Coq Require Import ZArith NArith Lia Permutation.
+Require Coq.Strings.String.
 Require Import Gen.Category Model.Runner Spec.RunnerSpec Proofs.RunnerProofs.
 From stdpp Require Import list.
-Require Import Model.Includes Model.Front Spec.IncludesSpec Spec.NoSilentSpec Proofs.IncludesProofs.
+Require Import Model.Includes Model.Front Spec.IncludesSpec Model.FrontStages Spec.NoSilentSpec Proofs.IncludesProofs.
+Require Model.Ast Model.Desugar Model.LiftFull Model.PipelineMirrors Spec.ExpandSpec.
+Require Import Proofs.NoSilentStages.
 
 (* ====================================================================== *)
 (* Runner side: an error-level report that is produced and not located     *)
@@ -267,15 +270,45 @@ Section NoSilentProofs.
 
   Variable pf_id pf_name : Z.
   Variable payload : Includes.report (path:=path) -> Z.
+  (* the parameters of Model.FrontStages *)
+  Variable pragma : path -> option version.
+  Variable has_main : path -> bool.
+  Variable cv : version.
+  Variable cs : codes.
+  Variable spay : stage_item path -> Z.
+  Variable ord : nat -> list nat -> list nat.
+  Variable horder : list nat -> list nat.
+  Variable prime : Z.
+  Variable kv kd : nat.
+  Variable err_file : PM.definition -> option N.
+  Variable name_id : String.string -> Z.
+  Variable after : PM.definition -> def.
+
   Notation report_of := (report_of pf_id pf_name payload).
   Notation front_project := (front_project pf_id pf_name payload).
+  Notation item_report := (item_report pf_id pf_name cs spay).
+  Notation lift_outcome := (lift_outcome ord horder prime kv kd).
+  Notation stage_def := (stage_def pf_id pf_name cs spay ord horder prime kv kd err_file name_id after).
+  Notation stage_others := (stage_others content pragma has_main cv pf_id pf_name cs spay).
+  Notation stage_defs := (stage_defs pf_id pf_name cs spay ord horder prime kv kd err_file name_id after).
+  Notation stage_project :=
+    (stage_project content pragma has_main cv pf_id pf_name cs spay ord horder prime kv kd err_file name_id after payload).
   Notation failure_event :=
     (failure_event canon is_dir is_file read_dir join parent file_name ext_circom starts_dot has_sep content
-                   pf_id pf_name payload).
+                   pf_id pf_name payload pragma has_main cv cs spay ord horder prime kv kd err_file).
   Notation file_is_named := (file_is_named canon is_dir read_dir join ext_circom).
   Notation not_in_included_only := (not_in_included_only canon is_dir read_dir join ext_circom).
+  Notation def_in_named_file := (def_in_named_file canon is_dir read_dir join ext_circom).
   Notation all_named_read :=
     (all_named_read canon is_dir is_file read_dir join parent file_name ext_circom starts_dot has_sep content).
+  Notation all_stages_passed :=
+    (all_stages_passed canon is_dir is_file read_dir join parent file_name ext_circom starts_dot has_sep content
+                       pragma has_main cv).
+
+  (* the ids of the error codes of the stages of Model.FrontStages *)
+  Definition stage_ids : list Z :=
+    [ c_id (c_version_error cs); c_id (c_multiple_main cs); c_id (c_tuple cs); c_id (c_anonymous cs);
+      c_id (c_param_collision cs) ].
 
   Section Run.
     Variable dfuel fuel : nat.
@@ -302,6 +335,12 @@ Section NoSilentProofs.
       by apply reach_named.
     Qed.
 
+    Lemma reachable_is_read f : reachable (named argv) (the_libraries libs) f -> f ∈ ps_read s.
+    Proof.
+      apply (reads_exactly_reachable canon is_dir is_file read_dir join parent file_name
+               ext_circom starts_dot has_sep content canon_idem dfuel fuel argv libs s Hrun).
+    Qed.
+
     Lemma not_included_only r : not_in_included_only argv s r -> ~ located_only_in_included (user_ids s) r.
     Proof.
       intros [Hnil|(z & Hz & Hn)] [Hne Hall]; [done|].
@@ -314,6 +353,23 @@ Section NoSilentProofs.
     Proof.
       intros Hr. unfold produced, Front.front_project, front_reports. simpl.
       apply in_or_app. left. apply in_or_app. left. apply in_map. by apply elem_of_list_In.
+    Qed.
+
+    Lemma other_report_produced others defs r :
+      In r others -> In r (produced (front_project s others defs)).
+    Proof.
+      intros Hx. unfold produced, Front.front_project. simpl. apply in_or_app. left. apply in_or_app. by right.
+    Qed.
+
+    (* the error of a definition that lives in a named file is produced *)
+    Lemma def_error_produced others defs d e :
+      In d defs -> file_is_named argv s (d_file d) -> d_err d = Some e ->
+      In e (produced (front_project s others defs)).
+    Proof.
+      intros Hd Hfile Herr. unfold produced. apply in_or_app. right. apply in_flat_map. exists d. split.
+      - unfold user_defs. apply filter_In. split; [done|]. unfold user_def_b. apply existsb_exists.
+        exists (d_file d). split; [by apply user_id_iff_named|apply Z.eqb_refl].
+      - unfold produced_def. rewrite Herr. apply in_or_app. right. by left.
     Qed.
 
     Lemma read_NoDup : NoDup (ps_read s).
@@ -332,156 +388,326 @@ Section NoSilentProofs.
       eapply (NoDup_lookup _ i j f Hnd); rewrite list_lookup_fmap; [by rewrite Hi|by rewrite Hj].
     Qed.
 
-    (* every failure event yields a report that is in the project, is error
-       level and is not located solely in included files *)
-    Lemma failure_event_produced others defs c r :
-      failure_event argv libs s others defs c r ->
-      In r (produced (front_project s others defs)) /\ r_level r = Error /\
-      not_in_included_only argv s r.
+    (* a file that was reached and could be read has an entry in the file library *)
+    Lemma reachable_has_entry f :
+      reachable (named argv) (the_libraries libs) f -> content f <> Unreadable ->
+      exists i u, ps_files s !! i = Some (f, u).
     Proof.
-      pose proof (parse_files_served _ _ _ _ _ Hrun) as [(SU & SP & SE & _) SO].
-      assert (Hother : forall x, In x others -> In x (produced (front_project s others defs))).
-      { intros x Hx. unfold produced, Front.front_project. simpl. apply in_or_app. left. apply in_or_app. by right. }
-      destruct c; simpl.
-      - (* MissingFile *)
-        intros (p & q & Hp & Hf & ->). split; [apply front_report_produced; eauto|]. split; [done|]. by left.
-      - (* UnreadableFile *)
-        intros (f & Hre & Hc & ->). split; [|split; [done|by left]].
-        apply front_report_produced. apply SU; [|done].
-        by apply (reads_exactly_reachable canon is_dir is_file read_dir join parent file_name
-                    ext_circom starts_dot has_sep content canon_idem dfuel fuel argv libs s Hrun).
-      - (* SyntaxError *)
-        intros (f & i & u & Hn & Hc & Hi & ->).
-        split; [apply front_report_produced; by eapply SP|]. split; [done|]. right.
-        exists (Z.of_nat i). split; [by left|]. by exists i, f, u.
-      - (* UnresolvedInclude *)
-        intros (f & incs & p & a & b & i & u & Hn & Hc & Hx & Hres & Hi & ->).
-        pose proof (unresolved_include_error_located canon is_dir is_file read_dir join parent file_name
-                      ext_circom starts_dot has_sep content canon_idem dfuel fuel argv libs s Hrun) as [_ HE].
-        destruct (HE f incs p a b (named_is_read f Hn) Hc Hx Hres) as (j & u' & Hj & Hrep).
-        assert (j = i) as -> by (eapply files_unique; eauto).
-        split; [by apply front_report_produced|]. split; [done|]. right.
-        exists (Z.of_nat i). split; [by left|]. by exists i, f, u.
-      - (* DuplicateParameter *)
-        intros (He & Hloc & d & Hd & Hfile & Herr). split; [|done].
-        unfold produced. apply in_or_app. right. apply in_flat_map. exists d. split.
-        + unfold user_defs. apply filter_In. split; [done|]. unfold user_def_b. apply existsb_exists.
-          exists (d_file d). split; [by apply user_id_iff_named|apply Z.eqb_refl].
-        + unfold produced_def. rewrite Herr. apply in_or_app. right. by left.
-      - (* LiftFailure *)
-        intros (He & Hloc & d & Hd & Hfile & Herr). split; [|done].
-        unfold produced. apply in_or_app. right. apply in_flat_map. exists d. split.
-        + unfold user_defs. apply filter_In. split; [done|]. unfold user_def_b. apply existsb_exists.
-          exists (d_file d). split; [by apply user_id_iff_named|apply Z.eqb_refl].
-        + unfold produced_def. rewrite Herr. apply in_or_app. right. by left.
-      - intros (He & Hin & Hnil). split; [auto|]. split; [done|by left].
-      - intros (He & Hin & Hnil). split; [auto|]. split; [done|by left].
-      - intros (He & Hin & Hz). split; [auto|]. split; [done|by right].
-      - intros (He & Hin & Hz). split; [auto|]. split; [done|by right].
+      intros Hre Hc. pose proof (parse_files_served _ _ _ _ _ Hrun) as [(_ & _ & SE & _) _].
+      apply SE; [|done]. by apply reachable_is_read.
     Qed.
 
-    (* C02: every failure class — the report is displayed, exit status 1 *)
-    Theorem failure_classes_reported others defs o order c r :
-      wf_project (front_project s others defs) ->
-      analysis_order (front_project s others defs) order ->
-      failure_event argv libs s others defs c r ->
-      ~ In (r_id r) (o_allow o) ->
-      In r (res_shown (run_keys (front_project s others defs) o order)) /\ r_level r = Error /\
-      res_exit (run_keys (front_project s others defs) o order) = 1%Z.
-    Proof.
-      intros Hwf Hord Hev Hal. destruct (failure_event_produced _ _ _ _ Hev) as (Hin & He & Hloc).
-      apply error_report_displayed; try done. by apply not_included_only.
-    Qed.
+    Lemma parses_readable f : parses content f = true -> content f <> Unreadable.
+    Proof. unfold parses. by destruct (content f). Qed.
 
-    (* the obligation of props/C02.v: the classes whose report is DERIVED from
-       the file system ([class_producer c = ByIncludes]: nothing about the
-       report — that it exists, its level, its code, its location — is in the
-       hypothesis).  For the other six classes [failure_event] contains
-       [r_level r = Error] and membership in [others] / [d_err], so
-       [failure_classes_reported] is for them [error_report_displayed] (the
-       runner's filter law) and is not stated as an obligation. *)
-    Theorem derived_classes_reported others defs o order c r :
-      class_producer c = ByIncludes ->
-      wf_project (front_project s others defs) ->
-      analysis_order (front_project s others defs) order ->
-      failure_event argv libs s others defs c r ->
-      ~ In (r_id r) (o_allow o) ->
-      In r (res_shown (run_keys (front_project s others defs) o order)) /\ r_level r = Error /\
-      res_exit (run_keys (front_project s others defs) o order) = 1%Z.
-    Proof. intros _. apply failure_classes_reported. Qed.
+    Section Stage.
+      Variable pr : PM.program.
+      Variable sd : Desugar.desugared.
+      Variable rest : list Runner.report.
+      Hypothesis Hsugar : sugar_input pr = Desugar.DOk sd.
 
-    (* the events of the Includes mirror are not hypothetical: whenever the
-       file system has the defect, the report exists *)
-    Theorem front_failures_have_reports others defs :
-      (forall f, named argv f -> content f = Unparsable ->
-         exists r, failure_event argv libs s others defs SyntaxError r) /\
-      (forall f incs p a b, named argv f -> content f = Parsed incs -> (p, a, b) ∈ incs ->
-         resolves f (the_libraries libs) p None ->
-         exists r, failure_event argv libs s others defs UnresolvedInclude r).
-    Proof.
-      pose proof (parse_files_served _ _ _ _ _ Hrun) as [(SU & SP & SE & _) SO].
-      split.
-      - intros f Hn Hc. destruct (SE f (named_is_read f Hn)) as (i & u & Hi); [congruence|].
-        eexists. simpl. exists f, i, u. done.
-      - intros f incs p a b Hn Hc Hx Hres. destruct (SE f (named_is_read f Hn)) as (i & u & Hi); [congruence|].
-        eexists. simpl. exists f, incs, p, a, b, i, u. done.
-    Qed.
+      Notation others := (stage_others s sd rest).
+      Notation defs := (stage_defs pr sd).
 
-    (* C02: exit status 0 only if every named file was opened, read, parsed and
-       had its includes served, and every definition in a named file was
-       taken up (its `analyzing` line is in the log) and lifted *)
-    Theorem clean_only_if_all_read_and_analysed others defs o order :
-      wf_project (front_project s others defs) ->
-      analysis_order (front_project s others defs) order ->
-      res_exit (run_keys (front_project s others defs) o order) = 0%Z ->
-      ~ In pf_id (o_allow o) ->
-      all_named_read argv libs s /\
-      (forall d, In d defs -> file_is_named argv s (d_file d) ->
-         In (MAnalyzing (d_key d)) (res_log (run_keys (front_project s others defs) o order)) /\
-         (forall e, d_err d = Some e -> r_level e = Error -> not_in_included_only argv s e ->
-                    In (r_id e) (o_allow o))).
-    Proof.
-      intros Hwf Hord Hex Hal.
-      assert (Hno : forall c r, failure_event argv libs s others defs c r -> In (r_id r) (o_allow o)).
-      { intros c r Hev. destruct (in_dec Z.eq_dec (r_id r) (o_allow o)) as [|Hn]; [done|].
-        destruct (failure_classes_reported others defs o order c r Hwf Hord Hev Hn) as (_ & _ & H1). congruence. }
-      pose proof (front_failures_have_reports others defs) as [FS FI].
-      split; [split; [|split]|].
-      - intros p q Hp Hf. apply Hal. apply (Hno MissingFile (report_of (FileOsError q))). simpl. eauto.
-      - intros f Hre Hc. apply Hal. apply (Hno UnreadableFile (report_of (FileOsError f))). simpl. eauto.
-      - intros f Hn. destruct (content f) as [| |incs] eqn:Hc.
-        + exfalso. apply Hal. apply (Hno UnreadableFile (report_of (FileOsError f))). simpl.
-          exists f. split; [by apply reach_named|done].
-        + exfalso. destruct (FS f Hn Hc) as (r & Hev). apply Hal.
-          pose proof (Hno _ _ Hev) as Hin. simpl in Hev. destruct Hev as (? & ? & ? & _ & _ & _ & ->). exact Hin.
-        + exists incs. split; [done|]. intros p a b Hx.
-          destruct (every_include_served canon is_dir is_file read_dir join parent file_name
-                      ext_circom starts_dot has_sep content canon_idem dfuel fuel argv libs s f incs p a b
-                      Hrun (named_is_read f Hn) Hc Hx) as [Hok|[Hres _]]; [done|].
-          exfalso. destruct (FI f incs p a b Hn Hc Hx Hres) as (r & Hev). apply Hal.
-          pose proof (Hno _ _ Hev) as Hin. simpl in Hev.
-          destruct Hev as (? & ? & ? & ? & ? & ? & ? & _ & _ & _ & _ & _ & ->). exact Hin.
-      - intros d Hd Hfile. split.
-        + apply analysed_is_logged; try done. eapply Permutation_in; [apply Permutation_sym; exact Hord|].
-          apply in_map. unfold user_defs. apply filter_In. split; [done|]. unfold user_def_b. apply existsb_exists.
-          exists (d_file d). split; [by apply user_id_iff_named|apply Z.eqb_refl].
-        + intros e Herr He Hloc. apply (Hno LiftFailure e). simpl. split; [done|]. split; [done|]. by exists d.
-    Qed.
+      Lemma stage_project_is : stage_project s pr sd rest = front_project s others defs.
+      Proof. reflexivity. Qed.
+
+      Lemma stage_item_produced it :
+        In it (stage_items content pragma has_main cv (ps_files s)) ->
+        In (item_report it) (produced (front_project s others defs)).
+      Proof.
+        intros Hin. apply other_report_produced. unfold FrontStages.stage_others.
+        apply in_or_app. left. by apply in_map.
+      Qed.
+
+      Lemma sugar_item_produced it :
+        In it (sugar_items sd) -> In (item_report it) (produced (front_project s others defs)).
+      Proof.
+        intros Hin. apply other_report_produced. unfold FrontStages.stage_others.
+        apply in_or_app. right. apply in_or_app. right. by apply in_map.
+      Qed.
+
+      Lemma rest_produced r : In r rest -> In r (produced (front_project s others defs)).
+      Proof.
+        intros Hin. apply other_report_produced. unfold FrontStages.stage_others.
+        apply in_or_app. right. apply in_or_app. by left.
+      Qed.
+
+      (* the error report of a definition of a named file that is handed to the runner *)
+      Lemma lift_error_produced dd e :
+        In dd (handed_on pr sd) -> def_in_named_file argv s dd -> lift_outcome dd = Some e ->
+        In (item_report (SILiftError dd e (lift_error_file err_file dd e)))
+           (produced (front_project s others defs)).
+      Proof.
+        intros Hin (fid & Hpf & Hnamed) Hout.
+        apply (def_error_produced others defs (stage_def dd)).
+        - unfold FrontStages.stage_defs. by apply in_map.
+        - rewrite stage_def_file. unfold def_file. by rewrite Hpf.
+        - by apply stage_def_err.
+      Qed.
+
+      (* every failure event yields a report that is in the project, is error
+         level and is not located solely in included files *)
+      Lemma failure_event_produced c r :
+        failure_event argv libs s pr sd rest c r ->
+        In r (produced (front_project s others defs)) /\ r_level r = Error /\
+        not_in_included_only argv s r.
+      Proof.
+        pose proof (parse_files_served _ _ _ _ _ Hrun) as [(SU & SP & SE & _) SO].
+        destruct c; simpl.
+        - (* MissingFile *)
+          intros (p & q & Hp & Hf & ->). split; [apply front_report_produced; eauto|]. split; [done|]. by left.
+        - (* UnreadableFile *)
+          intros (f & Hre & Hc & ->). split; [|split; [done|by left]].
+          apply front_report_produced. apply SU; [|done]. by apply reachable_is_read.
+        - (* SyntaxError *)
+          intros (f & i & u & Hn & Hc & Hi & ->).
+          split; [apply front_report_produced; by eapply SP|]. split; [done|]. right.
+          exists (Z.of_nat i). split; [by left|]. by exists i, f, u.
+        - (* UnresolvedInclude *)
+          intros (f & incs & p & a & b & i & u & Hn & Hc & Hx & Hres & Hi & ->).
+          pose proof (unresolved_include_error_located canon is_dir is_file read_dir join parent file_name
+                        ext_circom starts_dot has_sep content canon_idem dfuel fuel argv libs s Hrun) as [_ HE].
+          destruct (HE f incs p a b (named_is_read f Hn) Hc Hx Hres) as (j & u' & Hj & Hrep).
+          assert (j = i) as -> by (eapply files_unique; eauto).
+          split; [by apply front_report_produced|]. split; [done|]. right.
+          exists (Z.of_nat i). split; [by left|]. by exists i, f, u.
+        - (* DuplicateParameter *)
+          intros (dd & Hin & Hnamed & Hb & Hnd & ->).
+          pose proof (repeated_parameter_outcome ord horder prime kv kd dd Hb Hnd) as Hout.
+          split; [exact (lift_error_produced dd LEParamCollision Hin Hnamed Hout)|]. split; [done|].
+          destruct Hnamed as (fid & Hpf & Hnamed). right. exists (Z.of_N fid). split; [|done].
+          simpl. rewrite Hpf. by left.
+        - (* LiftFailure *)
+          intros (dd & e & Hin & Hnamed & Hout & Hne & Hloc & ->).
+          assert (Hfile : lift_error_file err_file dd e = err_file dd) by (by destruct e).
+          pose proof (lift_error_produced dd e Hin Hnamed Hout) as Hp. rewrite Hfile in Hp.
+          split; [exact Hp|]. split; [by destruct e|].
+          destruct Hnamed as (fid & Hpf & Hnamed).
+          destruct Hloc as [Hl|Hl].
+          + left. destruct e; simpl; by rewrite Hl.
+          + right. exists (Z.of_N fid). split; [|done]. destruct e; simpl; rewrite Hl, Hpf; by left.
+        - (* BadPragma *)
+          intros (f & incs & v & Hre & Hc & Hp & Hv & ->).
+          destruct (reachable_has_entry f Hre) as (i & u & Hi); [congruence|].
+          split; [|split; [done|by left]]. apply (stage_item_produced (SIVersionError f v)). unfold stage_items.
+          apply in_or_app. left. by eapply version_item_in.
+        - (* SeveralMains *)
+          intros (f & g & Hne & Hrf & Hrg & Pf & Pg & Mf & Mg & ->).
+          destruct (reachable_has_entry f Hrf (parses_readable f Pf)) as (i & u & Hi).
+          destruct (reachable_has_entry g Hrg (parses_readable g Pg)) as (j & u' & Hj).
+          assert (Hij : i <> j) by (intros ->; rewrite Hi in Hj; congruence).
+          split; [|split; [done|by left]]. apply (stage_item_produced SIMultipleMain). unfold stage_items.
+          apply in_or_app. right. rewrite (two_mains_reported content has_main _ i j f g u u' Hi Hj Hij Pf Pg Mf Mg).
+          by left.
+        - (* InvalidTupleOrAnonymous *)
+          intros (n & body & fid & r0 & Hrej & Hbody & Hnamed & ->).
+          assert (Hloc : Desugar.r_file r0 = fid).
+          { destruct Hrej as [[_ Hd]|[_ (rs & Hc & Hr0)]].
+            - by eapply sugar_template_located.
+            - by eapply sugar_function_located. }
+          split; [|split; [done|]].
+          + apply (sugar_item_produced (SISugar r0)). destruct Hrej as [[Hin Hd]|[Hin (rs & Hc & Hr0)]].
+            * by eapply sugar_template_reported.
+            * by eapply sugar_function_reported.
+          + right. exists (Z.of_N fid). split; [|done]. simpl. rewrite Hloc. by left.
+        - (* DuplicateDefinition *)
+          intros (He & Hin & Hz). split; [by apply rest_produced|]. split; [done|by right].
+      Qed.
+
+      (* C02: every failure class — the report is displayed, exit status 1 *)
+      Theorem failure_classes_reported o order c r :
+        wf_project (stage_project s pr sd rest) ->
+        analysis_order (stage_project s pr sd rest) order ->
+        failure_event argv libs s pr sd rest c r ->
+        ~ In (r_id r) (o_allow o) ->
+        In r (res_shown (run_keys (stage_project s pr sd rest) o order)) /\ r_level r = Error /\
+        res_exit (run_keys (stage_project s pr sd rest) o order) = 1%Z.
+      Proof.
+        intros Hwf Hord Hev Hal. destruct (failure_event_produced _ _ Hev) as (Hin & He & Hloc).
+        apply error_report_displayed; try done. by apply not_included_only.
+      Qed.
+
+      (* the obligation of props/C02.v: the classes whose report is DERIVED
+         ([class_derivation c <> Assumed]: nine of the ten; for eight of them
+         nothing about the report — that it exists, its level, its code, its
+         location — is in the event; for LiftFailure the event constrains the
+         file id inside the error value, which the mirrors do not return).
+         For DuplicateDefinition the event contains the report, its level and
+         its location, so [failure_classes_reported] is for it
+         [error_report_displayed] (the runner's filter law) and is not stated
+         as an obligation. *)
+      Theorem derived_classes_reported o order c r :
+        class_derivation c <> Assumed ->
+        wf_project (stage_project s pr sd rest) ->
+        analysis_order (stage_project s pr sd rest) order ->
+        failure_event argv libs s pr sd rest c r ->
+        ~ In (r_id r) (o_allow o) ->
+        In r (res_shown (run_keys (stage_project s pr sd rest) o order)) /\ r_level r = Error /\
+        res_exit (run_keys (stage_project s pr sd rest) o order) = 1%Z.
+      Proof. intros _. apply failure_classes_reported. Qed.
+
+      (* the events are not hypothetical: whenever the input has the defect,
+         the report exists *)
+      Theorem front_failures_have_reports :
+        (forall f, named argv f -> content f = Unparsable ->
+           exists r, failure_event argv libs s pr sd rest SyntaxError r) /\
+        (forall f incs p a b, named argv f -> content f = Parsed incs -> (p, a, b) ∈ incs ->
+           resolves f (the_libraries libs) p None ->
+           exists r, failure_event argv libs s pr sd rest UnresolvedInclude r) /\
+        (* a template / function of a named file that the desugarer does not hand on *)
+        (forall n body fid,
+           In (n, body) (PM.named_bodies (PM.pr_templates pr)) -> body_in_file fid body ->
+           file_is_named argv s (Z.of_N fid) -> ~ In n (map fst (Desugar.d_templates sd)) ->
+           exists r, failure_event argv libs s pr sd rest InvalidTupleOrAnonymous r) /\
+        (forall n body fid,
+           In (n, body) (PM.named_bodies (PM.pr_functions pr)) -> body_in_file fid body ->
+           file_is_named argv s (Z.of_N fid) -> ~ In n (map fst (Desugar.d_functions sd)) ->
+           exists r, failure_event argv libs s pr sd rest InvalidTupleOrAnonymous r).
+      Proof.
+        pose proof (parse_files_served _ _ _ _ _ Hrun) as [(SU & SP & SE & _) SO].
+        split; [|split; [|split]].
+        - intros f Hn Hc. destruct (SE f (named_is_read f Hn)) as (i & u & Hi); [congruence|].
+          eexists. simpl. exists f, i, u. done.
+        - intros f incs p a b Hn Hc Hx Hres. destruct (SE f (named_is_read f Hn)) as (i & u & Hi); [congruence|].
+          eexists. simpl. exists f, incs, p, a, b, i, u. done.
+        - intros n body fid Hin Hb Hnamed Hno.
+          destruct (dropped_template_rejected pr sd n body Hsugar Hin Hno) as (r0 & Hr0).
+          eexists. simpl. exists n, body, fid, r0. split; [left; done|done].
+        - intros n body fid Hin Hb Hnamed Hno.
+          destruct (dropped_function_rejected pr sd n body Hsugar Hin Hno) as (rs & r0 & Hc & Hr0).
+          eexists. simpl. exists n, body, fid, r0. split; [right; split; [done|by exists rs]|done].
+      Qed.
+
+      (* C02: exit status 0 only if every named file was opened, read, parsed and
+         had its includes served, and every definition in a named file that is
+         handed to the runner was taken up (its `analyzing` line is in the log)
+         and lifted *)
+      Theorem clean_only_if_all_read_and_analysed o order :
+        wf_project (stage_project s pr sd rest) ->
+        analysis_order (stage_project s pr sd rest) order ->
+        res_exit (run_keys (stage_project s pr sd rest) o order) = 0%Z ->
+        ~ In pf_id (o_allow o) ->
+        all_named_read argv libs s /\
+        (forall d, In d defs -> file_is_named argv s (d_file d) ->
+           In (MAnalyzing (d_key d)) (res_log (run_keys (stage_project s pr sd rest) o order)) /\
+           (forall e, d_err d = Some e -> r_level e = Error -> not_in_included_only argv s e ->
+                      In (r_id e) (o_allow o))).
+      Proof.
+        intros Hwf Hord Hex Hal.
+        assert (Hno : forall c r, failure_event argv libs s pr sd rest c r -> In (r_id r) (o_allow o)).
+        { intros c r Hev. destruct (in_dec Z.eq_dec (r_id r) (o_allow o)) as [|Hn]; [done|].
+          destruct (failure_classes_reported o order c r Hwf Hord Hev Hn) as (_ & _ & H1). congruence. }
+        pose proof front_failures_have_reports as (FS & FI & _ & _).
+        split; [split; [|split]|].
+        - intros p q Hp Hf. apply Hal. apply (Hno MissingFile (report_of (FileOsError q))). simpl. eauto.
+        - intros f Hre Hc. apply Hal. apply (Hno UnreadableFile (report_of (FileOsError f))). simpl. eauto.
+        - intros f Hn. destruct (content f) as [| |incs] eqn:Hc.
+          + exfalso. apply Hal. apply (Hno UnreadableFile (report_of (FileOsError f))). simpl.
+            exists f. split; [by apply reach_named|done].
+          + exfalso. destruct (FS f Hn Hc) as (r & Hev). apply Hal.
+            pose proof (Hno _ _ Hev) as Hin. simpl in Hev. destruct Hev as (? & ? & ? & _ & _ & _ & ->). exact Hin.
+          + exists incs. split; [done|]. intros p a b Hx.
+            destruct (every_include_served canon is_dir is_file read_dir join parent file_name
+                        ext_circom starts_dot has_sep content canon_idem dfuel fuel argv libs s f incs p a b
+                        Hrun (named_is_read f Hn) Hc Hx) as [Hok|[Hres _]]; [done|].
+            exfalso. destruct (FI f incs p a b Hn Hc Hx Hres) as (r & Hev). apply Hal.
+            pose proof (Hno _ _ Hev) as Hin. simpl in Hev.
+            destruct Hev as (? & ? & ? & ? & ? & ? & ? & _ & _ & _ & _ & _ & ->). exact Hin.
+        - intros d Hd Hfile. split.
+          + apply analysed_is_logged; try done. eapply Permutation_in; [apply Permutation_sym; exact Hord|].
+            apply in_map. unfold user_defs. apply filter_In. split; [done|]. unfold user_def_b. apply existsb_exists.
+            exists (d_file d). split; [by apply user_id_iff_named|apply Z.eqb_refl].
+          + intros e Herr He Hloc. destruct (in_dec Z.eq_dec (r_id e) (o_allow o)) as [|Hn]; [done|]. exfalso.
+            assert (Hp : In e (produced (stage_project s pr sd rest))) by (by eapply def_error_produced).
+            destruct (error_report_displayed _ o order e Hwf Hord Hp He (not_included_only e Hloc) Hn) as (_ & _ & H1).
+            congruence.
+      Qed.
+
+      (* C02: exit status 0 (with none of the error codes of the stages
+         allow-listed) only if, besides, every file that was reached asks for
+         a supported compiler version or none, at most one of them has a main
+         component, the desugarer handed on every template and every function
+         of the named files, no definition of a named file handed to the
+         runner repeats a parameter name, and the lifting / SSA mirrors
+         answered with no error for it (unless that error's id is allow-listed
+         or its file id points into another file) *)
+      Theorem clean_only_if_stages_passed o order :
+        wf_project (stage_project s pr sd rest) ->
+        analysis_order (stage_project s pr sd rest) order ->
+        res_exit (run_keys (stage_project s pr sd rest) o order) = 0%Z ->
+        (forall z, In z stage_ids -> ~ In z (o_allow o)) ->
+        all_stages_passed argv libs s pr sd /\
+        (forall dd, In dd (handed_on pr sd) -> def_in_named_file argv s dd ->
+           In (MAnalyzing (runner_kind (PM.d_kind dd), name_id (PM.d_name dd)))
+              (res_log (run_keys (stage_project s pr sd rest) o order)) /\
+           (LiftFull.is_block (PM.d_body dd) = true -> List.NoDup (PM.d_params dd)) /\
+           (forall e, lift_outcome dd = Some e -> e <> LEParamCollision ->
+                      err_file dd = None \/ err_file dd = PM.d_pfile dd ->
+                      In (r_id (item_report (SILiftError dd e (err_file dd)))) (o_allow o))).
+      Proof.
+        intros Hwf Hord Hex Hal.
+        assert (Hno : forall c r, failure_event argv libs s pr sd rest c r -> In (r_id r) (o_allow o)).
+        { intros c r Hev. destruct (in_dec Z.eq_dec (r_id r) (o_allow o)) as [|Hn]; [done|].
+          destruct (failure_classes_reported o order c r Hwf Hord Hev Hn) as (_ & _ & H1). congruence. }
+        pose proof front_failures_have_reports as (_ & _ & FT & FF).
+        assert (Hsugar_id : forall r0, In (r_id (item_report (SISugar r0))) stage_ids).
+        { intros r0. unfold stage_ids. simpl. destruct (Desugar.r_code r0); simpl; tauto. }
+        split; [split; [|split; [|split]]|].
+        - intros f incs v Hre Hc Hp. destruct (version_supported v cv) eqn:Hv; [done|]. exfalso.
+          apply (Hal (c_id (c_version_error cs))); [unfold stage_ids; simpl; tauto|].
+          apply (Hno BadPragma (item_report (SIVersionError f v))). simpl. exists f, incs, v. done.
+        - intros f g Hrf Hrg Pf Pg Mf Mg.
+          destruct (parse_files_served _ _ _ _ _ Hrun) as [(_ & _ & SE & _) _].
+          destruct (reachable_has_entry f Hrf (parses_readable f Pf)) as (i & u & Hi).
+          destruct (reachable_has_entry g Hrg (parses_readable g Pg)) as (j & u' & Hj).
+          destruct (decide (i = j)) as [->|Hij]; [rewrite Hi in Hj; congruence|]. exfalso.
+          apply (Hal (c_id (c_multiple_main cs))); [unfold stage_ids; simpl; tauto|].
+          apply (Hno SeveralMains (item_report SIMultipleMain)). simpl. exists f, g.
+          split; [|done]. intros ->. apply Hij. by eapply files_unique.
+        - intros n body fid Hin Hb Hnamed.
+          destruct (in_dec String.string_dec n (map fst (Desugar.d_templates sd))) as [|Hno']; [done|]. exfalso.
+          destruct (FT n body fid Hin Hb Hnamed Hno') as (r & Hev).
+          pose proof (Hno _ _ Hev) as Hin'. simpl in Hev. destruct Hev as (? & ? & ? & r0 & _ & _ & _ & ->).
+          by apply (Hal _ (Hsugar_id r0)).
+        - intros n body fid Hin Hb Hnamed.
+          destruct (in_dec String.string_dec n (map fst (Desugar.d_functions sd))) as [|Hno']; [done|]. exfalso.
+          destruct (FF n body fid Hin Hb Hnamed Hno') as (r & Hev).
+          pose proof (Hno _ _ Hev) as Hin'. simpl in Hev. destruct Hev as (? & ? & ? & r0 & _ & _ & _ & ->).
+          by apply (Hal _ (Hsugar_id r0)).
+        - intros dd Hin Hnamed. split; [|split].
+          + apply analysed_is_logged; try done. eapply Permutation_in; [apply Permutation_sym; exact Hord|].
+            rewrite <- (stage_def_key pf_id pf_name cs spay ord horder prime kv kd err_file name_id after dd).
+            apply in_map. unfold user_defs. apply filter_In. split.
+            * simpl. unfold FrontStages.stage_defs. by apply in_map.
+            * unfold user_def_b. apply existsb_exists. exists (d_file (stage_def dd)). split; [|apply Z.eqb_refl].
+              apply user_id_iff_named. destruct Hnamed as (fid & Hpf & Hnamed).
+              rewrite stage_def_file. unfold def_file. by rewrite Hpf.
+          + intros Hb. destruct (ListDec.NoDup_dec String.string_dec (PM.d_params dd)) as [|Hnd]; [done|]. exfalso.
+            apply (Hal (c_id (c_param_collision cs))); [unfold stage_ids; simpl; tauto|].
+            apply (Hno DuplicateParameter (item_report (SILiftError dd LEParamCollision (PM.d_pfile dd)))).
+            simpl. exists dd. done.
+          + intros e Hout Hne Hloc.
+            apply (Hno LiftFailure (item_report (SILiftError dd e (err_file dd)))). simpl. exists dd, e. done.
+      Qed.
+    End Stage.
   End Run.
 
   (* [class_shape] is the form in which [failure_event] states the report of a
      class (the table lib/props/C02.py reads through the extracted driver) *)
-  Lemma failure_event_shape argv libs s others defs c r :
-    failure_event argv libs s others defs c r ->
+  Lemma failure_event_shape argv libs s pr sd rest c r :
+    failure_event argv libs s pr sd rest c r ->
     match class_shape c with
     | ShOsError => exists q, r = report_of (FileOsError q)
     | ShParseError => exists i, r = report_of (ParsingError i)
     | ShIncludeError => exists p i a b, r = report_of (IncludeError p (Some i) a b)
-    | ShLiftError =>
-        r_level r = Error /\ exists d, In d defs /\ file_is_named argv s (d_file d) /\ d_err d = Some r
-    | ShOtherUnlabelled => r_level r = Error /\ In r others /\ r_pfiles r = []
+    | ShVersionError => exists f v, r = item_report (SIVersionError f v)
+    | ShMultipleMain => r = item_report SIMultipleMain
+    | ShSugarError => exists r0, r = item_report (SISugar r0)
+    | ShParamCollision => exists dd, r = item_report (SILiftError dd LEParamCollision (PM.d_pfile dd))
+    | ShLiftError => exists dd e, e <> LEParamCollision /\ r = item_report (SILiftError dd e (err_file dd))
     | ShOtherInNamedFile =>
-        r_level r = Error /\ In r others /\ exists z, In z (r_pfiles r) /\ file_is_named argv s z
+        r_level r = Error /\ In r rest /\ exists z, In z (r_pfiles r) /\ file_is_named argv s z
     end.
   Proof.
     destruct c; simpl.
@@ -489,11 +715,11 @@ Section NoSilentProofs.
     - intros (f & _ & _ & ->). by exists f.
     - intros (f & i & u & _ & _ & _ & ->). by exists i.
     - intros (f & incs & p & a & b & i & u & _ & _ & _ & _ & _ & ->). by exists p, i, a, b.
-    - intros (He & _ & d & Hd & Hf & Herr). split; [done|]. by exists d.
-    - intros (He & _ & d & Hd & Hf & Herr). split; [done|]. by exists d.
-    - done.
-    - done.
-    - done.
+    - intros (dd & _ & _ & _ & _ & ->). by exists dd.
+    - intros (dd & e & _ & _ & _ & Hne & _ & ->). by exists dd, e.
+    - intros (f & incs & v & _ & _ & _ & _ & ->). by exists f, v.
+    - intros (f & g & _ & _ & _ & _ & _ & _ & _ & ->). done.
+    - intros (n & body & fid & r0 & _ & _ & _ & ->). by exists r0.
     - done.
   Qed.
 End NoSilentProofs.
@@ -502,5 +728,9 @@ Lemma all_classes_complete : forall c, In c all_classes.
 Proof. intros []; simpl; tauto. Qed.
 
 Lemma derived_classes_are : forall c,
-  class_producer c = ByIncludes <-> c = MissingFile \/ c = UnreadableFile \/ c = SyntaxError \/ c = UnresolvedInclude.
-Proof. intros []; simpl; split; intros H; try tauto; try discriminate; repeat (destruct H as [H|H]; try discriminate). Qed.
+  class_derivation c = Derived <->
+  c <> LiftFailure /\ c <> DuplicateDefinition.
+Proof. intros []; simpl; split; intros H; try done; try (split; discriminate); destruct H as [H1 H2]; congruence. Qed.
+
+Lemma assumed_class_is : forall c, class_derivation c = Assumed <-> c = DuplicateDefinition.
+Proof. intros []; simpl; split; intros H; try done; discriminate. Qed.
